@@ -174,6 +174,8 @@ def _worker(mod, tier, seed, w, nw, deadline, conn):
             if keep:
                 out["samples"].append({"case": case, "executions": srec})
         out["total_idx"] = n
+        if hasattr(mod, "worker_exit"):
+            mod.worker_exit()  # scratch directories: atexit handlers do not run in multiprocessing children
         out["lp"] = LPCounter.calls
         out["oracle_queries"] = oracle.QUERIES
     except BaseException:  # harness malfunction: report, parent exits 2
